@@ -143,6 +143,7 @@ pub struct Src {
     pub enabled_since_cb: bool,
     /// the source's last registration call left it registered with the poller
     pub registered: bool,
+    pub disabled_by_post_action: bool,
     // ping
     pub ping_handles: Vec<Ping>,
     pub pings: u64,
@@ -208,6 +209,7 @@ impl Src {
             must: None,
             enabled_since_cb: false,
             registered: false,
+            disabled_by_post_action: false,
             ping_handles: vec![],
             pings: 0,
             ping_closed: false,
